@@ -267,7 +267,7 @@ def _cfg_for(name):
                 continue
             if getattr(a, "slow", False) and mode == "rows":
                 continue
-            out.append(dict(strat=name, n=3, mode=mode, b=2))
+            out.append(dict(strat=name, n=getattr(a, "n", None) or 3, mode=mode, b=2))
         return out
     return cfg
 
